@@ -68,7 +68,7 @@ def run(ctx):
     q = ctx.quick
     ctx.cov["rule"] = ("single-track files built through smf.New/Track.Add (single and multi-message)/Track.Close/SMF.Add, converted by the real "
                        "ConvertToSMF1; (a) small scope exhaustive: every source of <= %d messages over 3 channels (one with two distinguishable "
-                       "messages), 2 metas, a sysex, deltas {0,1}, terminator delta {0,1} -- the space of MC_Convert; (b) seeded random files: 0..400 "
+                       "messages), 2 metas, a sysex, deltas {0,1}, terminator delta {0,1} or never closed -- the space of MC_Convert; (b) seeded random files (1 in 8 never closed): 0..400 "
                        "messages, 1..16 channels, channel/meta/sysex/escape mixes from none to all, runs of >= 13 messages on one tick (also >= 13 "
                        "non-channel ones, the only sorted track), gaps to 10^6 ticks, terminator delta 0..10^6, 8 time divisions. TLC judges every record "
                        "with Convert!ConvertOk. distinct = source hash; non-trivial = has one of %s" % (3 if q else 5, sorted(NONTRIVIAL)))
@@ -111,7 +111,7 @@ def run(ctx):
         if not samples:
             samples = [{"nsrc": len(r["src"]), "ntracks": len(r["dtracks"]), "feat": r["feat"], "src_head": r["src"][:4]} for r in recs[:2]]
         take(recs)
-    for need in ("tick13", "other13_on_tick", "ch16", "gap", "late_eot", "dup_on_tick", "no_other", "no_chan"):
+    for need in ("tick13", "other13_on_tick", "ch16", "gap", "late_eot", "dup_on_tick", "no_other", "no_chan", "unclosed"):
         if not feats[need]:
             raise Machinery("generator never produced feature %s" % need)
     ctx.count(0, [], samples)
